@@ -10,6 +10,14 @@
 //!   6 class  `0 6 start count`        the white-space classes the parser splits on
 //!   8 ctflags `0 8 <hdr9> <bld9>`     like 4, through the real CTLexerBuilder and the code it generates
 //!   7 behaviour `0 7 len+1|0 <n cp…> <n cp…>`  a literal text, a sample, what its first rule must match
+//!   9 wspec  `0 9 seed caseno`        generated specification with 1-4 random edits (lines duplicated,
+//!                                     deleted, swapped, inserted from a menu of troublemakers; characters
+//!                                     inserted/deleted): the whole result of the real parser
+//!
+//! Kinds 1, 2, 3, 5 and 9 also emit, for their text, the request `9 …` (see `whole`): the real
+//! parser's WHOLE result (start states with ids/flags/spans, rules with ids, names, spans, start-state
+//! ids, targets, re_str — or the error list with kinds and spans) as an `IW` line, compared with the
+//! Lean model of the parse loops (`MW`, Model/LexSpecParse.lean) and its line specification (`SW`).
 use crate::out::{guarded, plist, Out};
 use crate::rng::Rng;
 use crate::Args;
@@ -271,7 +279,9 @@ fn case_text(out: &mut Out, src: &str, tag: &str) {
     out.case("C11", id, &format!("0 1 {}", cps(src)));
     out.imp(id, "D", &format!("kind=text {} src={:?}", tag, src));
     out.count("kind.text");
-    match build(src, None) {
+    let r = build(src, None);
+    whole(out, id, src, None, &r);
+    match r {
         Err(p) => out.imp(id, "H", &format!("fail panic in from_str: {}", p)),
         Ok(r) => {
             let f = spans_consistent(src, &r);
@@ -314,6 +324,7 @@ fn case_esc(out: &mut Out, re: &str, posix: bool, prefix: bool, hdr: bool, tag: 
     let alone = builder_for(&spec, &fl, false).is_ok();
     let wrapped = builder_for(&spec, &fl, true).is_ok();
     let r = build(&src, if hdr || !posix { None } else { Some(&bld) });
+    whole(out, id, &src, if hdr || !posix { None } else { Some(&bld) }, &r);
     // The text the specification denotes is asked of the regex engine on its own AND as the parser
     // embeds it (`\A(?:..)`). Texts like `a)b\` are not regular expressions but complete the
     // group: for that class (flagged below) the bit follows the implementation.
@@ -834,6 +845,7 @@ fn case_spec(out: &mut Out, seed: u64, caseno: u64) {
     let mut fails: Vec<String> = Vec::new();
     let mut known_class: Vec<String> = Vec::new();
     let r = build(&sp.text, sp.bld.as_ref());
+    whole(out, id, &sp.text, sp.bld.as_ref(), &r);
     let def = match r {
         Err(p) => {
             out.imp(id, "H", &format!("fail panic while parsing a valid specification: {}", p));
@@ -978,6 +990,346 @@ fn case_spec(out: &mut Out, seed: u64, caseno: u64) {
         out.imp(id, "H", &format!("fail {}", known_class[0]));
     } else {
         out.imp(id, "H", "ok");
+    }
+}
+
+// ------------------------------------------------------------------------------------------------
+// whole specification: the real parser's whole result against the Lean model of the parse loops
+
+fn is_pws(c: char) -> bool {
+    matches!(c as u32, 9..=13 | 32 | 0x85 | 0x200E | 0x200F | 0x2028 | 0x2029)
+}
+fn is_line_sep(c: char) -> bool {
+    matches!(c as u32, 10 | 11 | 13 | 0x2028 | 0x2029)
+}
+
+/// harness copy of where the line specification finds the regular expression of a rule line and
+/// what it rewrites it to; used ONLY to ask the regex engine which of the texts the model may look
+/// up do not compile (a text the model looks up and that is wrongly listed, or wrongly missing,
+/// shows as a disagreement of `IW` and `MW`)
+fn line_re(line: &str, posix: bool) -> Option<String> {
+    let l = line.trim_end_matches(is_pws);
+    let rspace = l.rfind(|c| c == ' ' || c == '\t')?;
+    let before = &l[..rspace];
+    let trimmed = before.trim_end_matches(is_pws);
+    let t = if trimmed.len() == before.len() {
+        before
+    } else if trimmed.chars().rev().take_while(|&c| c == '\\').count() % 2 == 1 {
+        let n = before[trimmed.len()..].chars().next().unwrap().len_utf8();
+        &before[..trimmed.len() + n]
+    } else {
+        trimmed
+    };
+    let re = if t.starts_with('<') {
+        match t.find('>') {
+            Some(j) => &t[j + 1..],
+            None => return None,
+        }
+    } else {
+        t
+    };
+    let chars: Vec<char> = re.chars().collect();
+    Some(rust_spec(&chars, posix))
+}
+
+/// the flags `from_str` / the builder's merge hand to the parser (defaults filled in as
+/// `new_with_lex_flags` does) and the offset at which the real `%grmtools` parser stops
+fn flags_for(src: &str, bld: Option<&Fl>) -> Option<(LexFlags, usize)> {
+    let r = guarded(AssertUnwindSafe(|| -> Option<(LexFlags, usize)> {
+        let (mut parsed, pos) = GrmtoolsSectionParser::new(src, false).parse().ok()?;
+        let mut f = match bld {
+            None => LexFlags::try_from(&mut parsed).ok()?,
+            Some(b) => {
+                let mut header: Header<Location> = Header::new();
+                header.set_default_merge_behavior(MergeBehavior::Ours);
+                for i in 0..9 {
+                    if let Some(v) = b[i] {
+                        header.insert(
+                            FLAGS[i].to_string(),
+                            HeaderValue(
+                                Location::Other("CTLexerBuilder".to_string()),
+                                Value::Flag(v, Location::Other("CTLexerBuilder".to_string())),
+                            ),
+                        );
+                    }
+                }
+                header.merge_from(parsed).ok()?;
+                LexFlags::try_from(&mut header).ok()?
+            }
+        };
+        let d = DEFAULT_LEX_FLAGS;
+        f.octal = f.octal.or(d.octal);
+        f.multi_line = f.multi_line.or(d.multi_line);
+        f.dot_matches_new_line = f.dot_matches_new_line.or(d.dot_matches_new_line);
+        f.posix_escapes = f.posix_escapes.or(d.posix_escapes);
+        f.allow_wholeline_comments = f.allow_wholeline_comments.or(d.allow_wholeline_comments);
+        f.case_insensitive = f.case_insensitive.or(d.case_insensitive);
+        f.ignore_whitespace = f.ignore_whitespace.or(d.ignore_whitespace);
+        f.swap_greed = f.swap_greed.or(d.swap_greed);
+        f.unicode = f.unicode.or(d.unicode);
+        f.size_limit = f.size_limit.or(d.size_limit);
+        f.dfa_size_limit = f.dfa_size_limit.or(d.dfa_size_limit);
+        f.nest_limit = f.nest_limit.or(d.nest_limit);
+        Some((f, pos))
+    }));
+    r.ok().flatten()
+}
+
+/// does the regex engine accept `re` compiled the way `Rule::new` compiles it
+fn compiles_as_rule(re: &str, f: &LexFlags) -> bool {
+    let mut b = RegexBuilder::new(&format!("\\A(?:{})", re));
+    b.octal(f.octal.unwrap_or(false))
+        .multi_line(f.multi_line.unwrap_or(false))
+        .dot_matches_new_line(f.dot_matches_new_line.unwrap_or(false));
+    if let Some(x) = f.ignore_whitespace {
+        b.ignore_whitespace(x);
+    }
+    if let Some(x) = f.unicode {
+        b.unicode(x);
+    }
+    if let Some(x) = f.case_insensitive {
+        b.case_insensitive(x);
+    }
+    if let Some(x) = f.swap_greed {
+        b.swap_greed(x);
+    }
+    if let Some(x) = f.size_limit {
+        b.size_limit(x);
+    }
+    if let Some(x) = f.dfa_size_limit {
+        b.dfa_size_limit(x);
+    }
+    if let Some(x) = f.nest_limit {
+        b.nest_limit(x);
+    }
+    b.build().is_ok()
+}
+
+fn debug_field(dbg: &str, key: &str) -> Option<String> {
+    let at = dbg.find(key)? + key.len();
+    let rest = &dbg[at..];
+    let end = rest.find(|c: char| c == ',' || c == ' ' || c == '}').unwrap_or(rest.len());
+    Some(rest[..end].to_string())
+}
+
+/// the whole result in the format of the driver's `MW`/`SW` reply; `None` = not comparable (an error
+/// that is not the lex parser's)
+fn fmt_whole(r: &Result<Result<Def, Vec<LexBuildError>>, String>) -> Option<String> {
+    match r {
+        Err(_) => Some("P".to_string()),
+        Ok(Err(es)) => {
+            let mut parts = vec![format!("err {}", es.len())];
+            for e in es {
+                let k = err_kind(e);
+                if k == "Header" || k == "Other" {
+                    return None;
+                }
+                parts.push(format!("{} {}", k, e.spans().len()));
+                for sp in e.spans() {
+                    parts.push(format!("{} {}", sp.start(), sp.end()));
+                }
+            }
+            Some(parts.join(" "))
+        }
+        Ok(Ok(def)) => {
+            let sts: Vec<&StartState> = def.iter_start_states().collect();
+            let mut parts = vec![format!("ok S {}", sts.len())];
+            for s in &sts {
+                // `id` and `exclusive` are not readable from outside the crate; the Debug rendering is
+                // (it starts `StartState { id: N, name: ..`; names cannot contain blanks)
+                let dbg = format!("{:?}", s);
+                let id = debug_field(&dbg, "{ id: ").unwrap_or_else(|| "?".to_string());
+                let excl = dbg.ends_with("exclusive: true }");
+                let sp = s.name_span();
+                parts.push(format!("{} {} {} {} {}", id, excl as u8, sp.start(), sp.end(), cps(s.name())));
+            }
+            let rules: Vec<_> = def.iter_rules().collect();
+            parts.push(format!("R {}", rules.len()));
+            for r in rules {
+                let sp = r.name_span();
+                let tok = r.tok_id().map(|t| t.to_string()).unwrap_or_else(|| "N".to_string());
+                let name = match r.name() { None => "N".to_string(), Some(n) => cps(n) };
+                let st: Vec<String> = r.start_states().iter().map(|x| x.to_string()).collect();
+                let mut item = format!("{} {} {} {} {}", tok, name, sp.start(), sp.end(), st.len());
+                for x in st {
+                    item.push(' ');
+                    item.push_str(&x);
+                }
+                match r.target_state() {
+                    None => item.push_str(" N"),
+                    Some((sid, op)) => item.push_str(&format!(" {} {}", sid, op_code(&op))),
+                }
+                item.push(' ');
+                item.push_str(&cps(r.re_str()));
+                parts.push(item);
+            }
+            Some(parts.join(" "))
+        }
+    }
+}
+
+/// request `9 …` + `IW` line for the text `src` whose real result is `r`
+fn whole(out: &mut Out, id: u64, src: &str, bld: Option<&Fl>, r: &Result<Result<Def, Vec<LexBuildError>>, String>) {
+    let (flags, pos) = match flags_for(src, bld) {
+        Some(x) => x,
+        None => {
+            out.count("whole.skipped_header_error");
+            return;
+        }
+    };
+    let ans = match fmt_whole(r) {
+        Some(a) => a,
+        None => {
+            out.count("whole.skipped_foreign_error");
+            return;
+        }
+    };
+    let posix = flags.posix_escapes == Some(true);
+    let comments = flags.allow_wholeline_comments.unwrap_or(false);
+    // every line of the text after the section (and what follows `%%` on a line): the re_str the
+    // line specification would hand to the regex engine, if it is refused
+    let mut bad: Vec<String> = Vec::new();
+    if let Some(body) = src.get(pos..) {
+        for line in body.split(is_line_sep) {
+            let mut cands = vec![line];
+            let t = line.trim_start_matches(is_pws);
+            if let Some(rest) = t.strip_prefix("%%") {
+                cands.push(rest.trim_start_matches(|c| c == ' ' || c == '\t'));
+            }
+            for c in cands {
+                if let Some(re) = line_re(c, posix) {
+                    if !compiles_as_rule(&re, &flags) && !bad.contains(&re) {
+                        bad.push(re);
+                    }
+                }
+            }
+        }
+    }
+    let mut req = format!("9 {} {} {} {} {}", posix as u8, comments as u8, pos, cps(src), bad.len());
+    for b in &bad {
+        req.push(' ');
+        req.push_str(&cps(b));
+    }
+    out.case("C11", id, &req);
+    out.imp(id, "IW", &ans);
+    out.count("whole.cases");
+    if ans.starts_with("ok") {
+        out.count("whole.accepted");
+    } else if ans.starts_with("err") {
+        out.count("whole.rejected");
+        for k in ["DuplicateName", "DuplicateStartState", "UnknownStartState", "Verbatim", "Routines", "PrematureEnd", "RegexError", "UnknownDeclaration", "InvalidStartStateName", "InvalidStartState", "InvalidName", "MissingSpace"] {
+            if ans.contains(k) {
+                out.count(&format!("whole.err.{}", k));
+            }
+        }
+        if ans.starts_with("err 2") || ans.starts_with("err 3") || ans.starts_with("err 4") {
+            out.count("whole.several_errors");
+        }
+    }
+    if pos > 0 {
+        out.count("whole.after_grmtools_section");
+    }
+    if comments && src.contains("//") {
+        out.count("whole.with_comments");
+    }
+}
+
+// ------------------------------------------------------------------------------------------------
+// kind 9: a generated specification with random edits; only the whole result is compared
+
+const TROUBLE_LINES: [&str; 26] = [
+    "%s INITIAL", "%x ST ST", "%s a_b  a_b Q9", "%x s1", "%S X X", "// c", " indented 'X'", "\tverb ;", "%%", "%% ", "%%\u{c}",
+    "<NOPE>x 'N'", "x <+NOPE>'N'", "y <ST>;", "<ST,s1>z <-s1>'Z'", "a 'ID'", "b \"ID\"", "c 'X'", "( 'P'", "%q", "%s", "<ST x 'A'",
+    "nospace", "d <ST'A'", "e A", "\u{e9} '\u{e9}t\u{e9}'",
+];
+
+fn mutate_text(rng: &mut Rng, text: &str) -> String {
+    let seps = ["\n", "\n", "\n", "\r\n", "\u{2028}", "\u{b}"];
+    let mut t = text.to_string();
+    let n = rng.range(1, 4);
+    for _ in 0..n {
+        // lines with their separators kept apart
+        let mut lines: Vec<String> = Vec::new();
+        let mut cur = String::new();
+        for c in t.chars() {
+            cur.push(c);
+            if is_line_sep(c) {
+                lines.push(std::mem::take(&mut cur));
+            }
+        }
+        if !cur.is_empty() {
+            lines.push(cur);
+        }
+        if lines.is_empty() {
+            lines.push(String::new());
+        }
+        match rng.below(9) {
+            0 | 1 => {
+                // duplicate a line somewhere later (or earlier)
+                let i = rng.below(lines.len());
+                let mut l = lines[i].clone();
+                if !l.ends_with(is_line_sep) {
+                    l.push('\n');
+                    let last = lines.len() - 1;
+                    if !lines[last].ends_with(is_line_sep) {
+                        lines[last].push('\n');
+                    }
+                }
+                let j = rng.below(lines.len() + 1);
+                lines.insert(j, l);
+            }
+            2 => {
+                let i = rng.below(lines.len());
+                lines.remove(i);
+            }
+            3 => {
+                let i = rng.below(lines.len());
+                let j = rng.below(lines.len());
+                lines.swap(i, j);
+            }
+            4 | 5 => {
+                let l = format!("{}{}", rng.pick(&TROUBLE_LINES[..]), rng.pick(&seps[..]));
+                let j = rng.below(lines.len() + 1);
+                lines.insert(j, l);
+            }
+            6 => {
+                let i = rng.below(lines.len());
+                lines[i] = format!("{}{}", rng.pick(&[" ", "\t", "\u{c}", "\u{85}"]), lines[i]);
+            }
+            7 => {
+                let mut v: Vec<char> = lines.concat().chars().collect();
+                let alpha: Vec<char> = " \t\n\r<>%/'\";,\\+-a(I\u{e9}\u{2028}\u{85}\u{c}\u{200e}".chars().collect();
+                let i = rng.below(v.len() + 1);
+                v.insert(i, *rng.pick(&alpha));
+                lines = vec![v.into_iter().collect()];
+            }
+            _ => {
+                let mut v: Vec<char> = lines.concat().chars().collect();
+                if !v.is_empty() {
+                    let i = rng.below(v.len());
+                    v.remove(i);
+                }
+                lines = vec![v.into_iter().collect()];
+            }
+        }
+        t = lines.concat();
+    }
+    t
+}
+
+fn case_wspec(out: &mut Out, seed: u64, caseno: u64) {
+    let mut rng = Rng::for_case(seed, 1109, caseno);
+    let sp = gen_spec(&mut rng, caseno % 5 == 4);
+    let text = mutate_text(&mut rng, &sp.text);
+    let id = out.id();
+    out.case("C11", id, &format!("0 9 {} {}", seed, caseno));
+    out.imp(id, "D", &format!("kind=wspec seed={} case={} builder={:?} src={:?}", seed, caseno, sp.bld.map(|b| fl_list(&b)), text));
+    out.count("kind.wspec");
+    let r = build(&text, sp.bld.as_ref());
+    whole(out, id, &text, sp.bld.as_ref(), &r);
+    match &r {
+        Err(p) => out.imp(id, "H", &format!("fail panic: {}", p)),
+        Ok(_) => out.imp(id, "H", "ok"),
     }
 }
 
@@ -1285,7 +1637,9 @@ fn case_error(out: &mut Out, seed: u64, caseno: u64) {
     if with_hdr {
         out.count("error.with_grmtools_section");
     }
-    match build(&text, None) {
+    let r = build(&text, None);
+    whole(out, id, &text, None, &r);
+    match r {
         Err(p) => out.imp(id, "H", &format!("fail panic: {}", p)),
         Ok(Ok(_)) => out.imp(id, "H", &format!("fail accepted, expected {}", want_kind)),
         Ok(Err(es)) => {
@@ -1402,6 +1756,7 @@ fn run_descriptor(out: &mut Out, v: &[u64]) -> Option<()> {
         }
         5 => case_error(out, v[1], v[2]),
         6 => case_class(out, v[1] as u32, v[2] as u32),
+        9 => case_wspec(out, v[1], v[2]),
         8 => {
             let (h, at) = list(v, 1)?;
             let (b, _) = list(v, at)?;
@@ -1539,6 +1894,13 @@ pub fn run(a: &Args) {
             continue;
         }
         case_spec(&mut out, a.seed, case);
+    }
+    // generated specifications with random edits: the whole result
+    for case in 0..12000 * scale {
+        if case % shards != shard {
+            continue;
+        }
+        case_wspec(&mut out, a.seed, case);
     }
     // random flag combinations
     for case in 0..3000 * scale {
